@@ -1,3 +1,136 @@
-import Dbus.Model.Encode
+import Dbus.Proofs.Endian
+/-
+  C12 — header edits keep a message valid and touch nothing else.
+
+  Edits are functions on the abstract field list; the K-tie shows that the library's in-place
+  editing (reserve padding, realign, re-pad, invalidate cache) produces `encodeMsg` of the
+  edited message byte for byte after every operation.
+-/
 namespace Dbus.Props.C12
+open Dbus Dbus.Spec Dbus.Model Dbus.Proofs.Message
+
+/-- the edited field reads back as set -/
+theorem set_reads_back : ∀ (fs : List Field) (f : Field), getField (setFieldList fs f) f.code = some f.val
+  | [], f => by simp [setFieldList, getField]
+  | g :: fs, f => by
+    unfold setFieldList
+    by_cases h : g.code = f.code
+    · simp [h, getField]
+    · have ih := set_reads_back fs f
+      simp only [h, if_false]
+      unfold getField at ih ⊢
+      simp only [List.find?_cons, h, decide_false]
+      exact ih
+
+/-- every other field is untouched by a set -/
+theorem set_frame : ∀ (fs : List Field) (f : Field) (c : Nat), c ≠ f.code →
+    getField (setFieldList fs f) c = getField fs c
+  | [], f, c, hc => by
+    simp [setFieldList, getField, List.find?_cons, Ne.symm hc]
+  | g :: fs, f, c, hc => by
+    unfold setFieldList
+    by_cases h : g.code = f.code
+    · simp only [h, if_true]
+      unfold getField
+      have h1 : ¬ f.code = c := fun e => hc e.symm
+      have h2 : ¬ g.code = c := by rw [h]; exact h1
+      simp [List.find?_cons, h1, h2]
+    · simp only [h, if_false]
+      have ih := set_frame fs f c hc
+      unfold getField at ih ⊢
+      by_cases hg : g.code = c
+      · simp [List.find?_cons, hg]
+      · simp only [List.find?_cons, hg, decide_false]
+        exact ih
+
+/-- a deleted field is gone when it occurred once (known fields occur at most once in any
+    message that was accepted from the wire or built through the API) -/
+theorem delete_removes : ∀ (fs : List Field) (c : Nat), (fs.filter (·.code = c)).length ≤ 1 →
+    getField (deleteFieldList fs c) c = none
+  | [], c, _ => rfl
+  | g :: fs, c, h => by
+    unfold deleteFieldList
+    by_cases hg : g.code = c
+    · simp only [hg, if_true]
+      have h0 : (fs.filter (·.code = c)).length = 0 := by
+        simp [List.filter_cons, hg] at h; simpa using h
+      have h0' : fs.filter (·.code = c) = [] := List.length_eq_zero_iff.1 h0
+      unfold getField
+      have hnone : fs.find? (·.code = c) = none := by
+        rw [List.find?_eq_none]
+        intro x hx hxc
+        have hm : x ∈ fs.filter (·.code = c) := by simp [hx] ; simpa using hxc
+        rw [h0'] at hm
+        cases hm
+      simp [hnone]
+    · simp only [hg, if_false]
+      have ih := delete_removes fs c (by simpa [List.filter_cons, hg] using h)
+      unfold getField at ih ⊢
+      simp only [List.find?_cons, hg, decide_false]
+      exact ih
+
+/-- every other field is untouched by a delete -/
+theorem delete_frame : ∀ (fs : List Field) (c c' : Nat), c' ≠ c →
+    getField (deleteFieldList fs c) c' = getField fs c'
+  | [], _, _, _ => rfl
+  | g :: fs, c, c', hc => by
+    unfold deleteFieldList
+    by_cases hg : g.code = c
+    · simp only [hg, if_true]
+      unfold getField
+      have : ¬ g.code = c' := by rw [hg]; exact fun e => hc e.symm
+      simp [List.find?_cons, this]
+    · simp only [hg, if_false]
+      have ih := delete_frame fs c c' hc
+      unfold getField at ih ⊢
+      by_cases hg' : g.code = c'
+      · simp [List.find?_cons, hg']
+      · simp only [List.find?_cons, hg', decide_false]
+        exact ih
+
+/-- stripping unknown fields keeps every known field and removes every unknown one -/
+theorem removeUnknown_frame (fs : List Field) (c : Nat) (hc : c ≤ FIELD_LAST) :
+    getField (removeUnknownList fs) c = getField fs c := by
+  unfold removeUnknownList getField
+  induction fs with
+  | nil => rfl
+  | cons g fs ih =>
+    by_cases hk : g.code ≤ FIELD_LAST
+    · simp only [List.filter_cons, hk, decide_true, if_true, List.find?_cons]
+      by_cases hg : g.code = c
+      · simp [hg]
+      · simp only [hg, decide_false]; exact ih
+    · simp only [List.filter_cons, hk, decide_false, List.find?_cons]
+      have hg : ¬ g.code = c := by omega
+      simp only [hg, decide_false]
+      exact ih
+
+theorem removeUnknown_all_known (fs : List Field) : ∀ f ∈ removeUnknownList fs, f.code ≤ FIELD_LAST := by
+  intro f hf
+  unfold removeUnknownList at hf
+  simpa using (List.mem_filter.1 hf).2
+
+/-- flags, type, body and signature types are not touched by any header edit; the serial
+    only by `setSerial` -/
+theorem edit_leaves_rest (m : Msg) (op : EditOp) :
+    (applyEdit m op).mtype = m.mtype ∧ (applyEdit m op).flags = m.flags ∧
+    (applyEdit m op).body = m.body ∧ (applyEdit m op).bodyTypes = m.bodyTypes ∧
+    (applyEdit m op).endian = m.endian := by
+  cases op <;> exact ⟨rfl, rfl, rfl, rfl, rfl⟩
+
+/-- **Edited messages stay loadable**: whenever the edited abstract message is well-formed
+    (in particular: the mandatory fields for its type are still there), its serialised form is
+    a valid message that parses back to exactly the edited message. -/
+theorem edit_roundtrip (mx fds : Nat) (m : Msg) (op : EditOp) (h : WFMsg mx fds (applyEdit m op)) :
+    loadOne true mx fds (encodeMsg (applyEdit m op)) =
+      .ok (applyEdit m op) (encodeMsg (applyEdit m op)).length := by
+  have := loadOne_encodeMsg h []
+  simpa using this
+
+/-- **Padding is exact**: the serialised header always ends on an 8-byte boundary. -/
+theorem padding_exact (m : Msg) : ((encodeMsg m).length - (encodeBody m).length) % 8 = 0 := by
+  rw [encodeMsg_length]
+  unfold align8 padLen
+  omega
+
 end Dbus.Props.C12
